@@ -13,6 +13,7 @@ import (
 	"reflect"
 	"strconv"
 	"strings"
+	"sync"
 	"sync/atomic"
 	"time"
 	"unsafe"
@@ -35,6 +36,7 @@ import (
 	p2psync "github.com/NethermindEth/juno/p2p/sync"
 	junosync "github.com/NethermindEth/juno/sync"
 	"github.com/NethermindEth/juno/utils/log"
+	"github.com/NethermindEth/juno/utils/verifhook"
 )
 
 type (
@@ -351,11 +353,31 @@ type epoch struct {
 	// fault kinds "the process is told to stop while a commit is in progress": 1 = the persister is
 	// gone and the context cancelled before the block can be handed over (first select of OnCommit),
 	// 2 = the persister has taken the block and the context is cancelled before it acknowledges
-	// (second select of OnCommit)
+	// (second select of OnCommit), 3 = the persister answers with an ERROR (the block could not be
+	// stored; nothing is cancelled)
 	cancelInCommit int
-	cancelOnBlock  atomic.Bool
-	persistStop    chan struct{}
-	persistGone    chan struct{}
+	closeWhich     int // regular stop by a closed listener: 0 precommit, 1 prevote, 2 proposal listener
+	// real timers (probe only): TimeoutFn answers 1 ms, the timer the driver arms fires by itself and
+	// reaches the select loop through the driver's own AfterFunc closure; firedCh gets the timeout the
+	// state machine is then called with
+	realTimers    bool
+	firedCh       chan string
+	persistErr    atomic.Bool
+	handed        atomic.Uint64 // blocks the persister has received from the commit listener
+	commitObs     []commitOb    // mode "store": one record per call of the REAL commit listener
+	cancelOnBlock atomic.Bool
+	// fault kind "the REAL walstore fails": the flush that is effect `failAt` reaches walstore.Flush
+	// with a failure installed at one of walstore's own injection points (utils/verifhook, build tag
+	// verif): walPoint = "before-write" (the write of the batch fails) or "after-sync" (written and
+	// synced, the sync is reported as failed). walPersistent: the store stays broken (every later
+	// append of this process — the one `Close` makes — fails the same way). preFail / postFail: the
+	// log directory right before and right after the failing call.
+	walPoint      string
+	walPersistent bool
+	preFail       string
+	postFail      string
+	persistStop   chan struct{}
+	persistGone   chan struct{}
 
 	curInput         int
 	replayDone       bool
@@ -439,6 +461,9 @@ func (w *smWrap) ProcessStart(r types.Round) []actions.Action[V, H, A] {
 }
 
 func (w *smWrap) ProcessTimeout(t types.Timeout) []actions.Action[V, H, A] {
+	if w.ep.firedCh != nil {
+		defer func() { w.ep.firedCh <- fmt.Sprintf("t:%d:%d:%d", t.Step, t.Height, t.Round) }()
+	}
 	return w.call("t", fmt.Sprintf("t:%d:%d:%d", t.Step, t.Height, t.Round), false,
 		func() []actions.Action[V, H, A] { return w.ep.real.ProcessTimeout(t) })
 }
@@ -482,7 +507,6 @@ func (w *smWrap) ProcessSync(p *starknet.Proposal, pc []starknet.Precommit) []ac
 	return w.call("sync", strings.Join(toks, " "), false, func() []actions.Action[V, H, A] { return w.ep.real.ProcessSync(p, pc) })
 }
 
-
 // ---- log store wrapper ----------------------------------------------------------------------
 
 type storeWrap struct {
@@ -499,13 +523,61 @@ func (s *storeWrap) snapshot() {
 	ep.snaps = append(ep.snaps, dst)
 }
 
+// hookMu: walstore's failure-injection hook (verifhook.SetFail) is one per process, and the workers
+// of this harness run their process histories concurrently. Every call into a real store that can
+// reach the hook holds the lock shared; the one call that is to fail holds it exclusively and has
+// the failure installed only meanwhile.
+var hookMu sync.RWMutex
+
+var errInjectedIO = fmt.Errorf("injected: input/output error")
+
+// withWALFault runs f (a call into the real store) with walstore's append failing at `point`.
+func withWALFault(point string, f func() error) error {
+	hookMu.Lock()
+	defer hookMu.Unlock()
+	verifhook.SetFail(func(name string) error {
+		if name == "walstore:append:"+point {
+			return errInjectedIO
+		}
+		return nil
+	})
+	defer verifhook.SetFail(nil)
+	return f()
+}
+
+func (s *storeWrap) realFlush() error {
+	if s.ep.walPoint != "" && s.ep.failedAt >= 0 && s.ep.walPersistent {
+		return withWALFault(s.ep.walPoint, s.real.Flush) // the store stays broken
+	}
+	hookMu.RLock()
+	defer hookMu.RUnlock()
+	return s.real.Flush()
+}
+
 func (s *storeWrap) Flush() error {
 	if s.ep.failAt == len(s.ep.effects) && s.ep.failedAt < 0 {
 		s.ep.failedAt = len(s.ep.effects)
-		return fmt.Errorf("injected: flush fails")
+		if s.ep.walPoint == "" {
+			return fmt.Errorf("injected: flush fails")
+		}
+		// the failure happens INSIDE the real store: its own error path runs (abortUncommitted, the
+		// tail repair that truncates the log file to the last synced offset, pending batch kept)
+		s.ep.preFail = filepath.Join(s.ep.base, "prefail")
+		if err := copyDir(s.ep.dir, s.ep.preFail); err != nil {
+			s.ep.errs = append(s.ep.errs, "snapshot: "+err.Error())
+		}
+		err := withWALFault(s.ep.walPoint, s.real.Flush)
+		s.ep.postFail = filepath.Join(s.ep.base, "postfail")
+		if e := copyDir(s.ep.dir, s.ep.postFail); e != nil {
+			s.ep.errs = append(s.ep.errs, "snapshot: "+e.Error())
+		}
+		if err == nil {
+			s.ep.errs = append(s.ep.errs, "walfault: Flush returned nil although the append failed")
+		}
+		return err
 	}
 	s.ep.record("flush")
-	err := s.real.Flush()
+	err := s.realFlush()
 	if err != nil {
 		s.ep.errs = append(s.ep.errs, "flush: "+err.Error())
 		return err
@@ -569,7 +641,18 @@ func (s *storeWrap) LoadAllEntries() iter.Seq2[wal.Entry[V, H, A], error] {
 	}
 }
 
-func (s *storeWrap) Close() error { return s.real.Close() }
+func (s *storeWrap) Close() error {
+	if s.ep.walPoint != "" && s.ep.failedAt >= 0 && s.ep.walPersistent {
+		err := withWALFault(s.ep.walPoint, s.real.Close) // the flush of Close fails, too
+		if err == nil && s.ep.pending > 0 {
+			s.ep.errs = append(s.ep.errs, "walfault: Close returned nil although its flush failed")
+		}
+		return err
+	}
+	hookMu.RLock()
+	defer hookMu.RUnlock()
+	return s.real.Close()
+}
 
 // ---- broadcasters, listeners, commit listener, timers ------------------------------------------
 
@@ -604,6 +687,17 @@ func (l lst[M]) Listen() <-chan M { return l.ch }
 
 type commitSink struct{ ep *epoch }
 
+// commitOb: one call of the real commitListener.OnCommit — the environment the harness set up for it
+// and what was observed (compared with ModelCommit.lean through the driver op `oncommit`).
+type commitOb struct {
+	H                          uint64
+	Found, HandedOver          bool   // environment: build result in the store; the persister takes the block
+	Persist                    string // environment: ack | error | ctx
+	CtxEnded                   bool
+	Result                     bool // observed: what OnCommit returned
+	Handover, Acked, Finalized bool // observed: block reached the persister / acknowledged / FinalizeHeight ran
+}
+
 func (c commitSink) OnCommit(ctx context.Context, h types.Height, v V) bool {
 	if c.ep.failAt == len(c.ep.effects) && c.ep.failedAt < 0 {
 		c.ep.failedAt = len(c.ep.effects)
@@ -612,18 +706,39 @@ func (c commitSink) OnCommit(ctx context.Context, h types.Height, v V) bool {
 		}
 		// the process is told to stop while the commit is in progress; the real commit listener must
 		// answer false (the block is not persisted)
-		if c.ep.cancelInCommit == 1 {
+		switch c.ep.cancelInCommit {
+		case 1:
 			close(c.ep.persistStop)
 			<-c.ep.persistGone
 			c.ep.cancel()
-		} else {
+		case 2:
 			c.ep.cancelOnBlock.Store(true)
+		default: // 3: nothing is cancelled, the persister reports that it could not store the block
+			c.ep.persistErr.Store(true)
 		}
 	}
 	if c.ep.inner != nil {
 		// the real commit listener: looks the build result up in the proposal store, hands the
 		// block to the persister (this harness acknowledges it), finalises the height in the store
-		if !c.ep.inner.OnCommit(ctx, h, v) {
+		ob := commitOb{H: uint64(h), Found: c.ep.app.store.Get(v.Hash()) != nil, HandedOver: true, Persist: "ack"}
+		if c.ep.failedAt == len(c.ep.effects) && c.ep.cancelInCommit > 0 { // this is the call the fault is for
+			switch c.ep.cancelInCommit {
+			case 1:
+				ob.HandedOver, ob.CtxEnded = false, true
+			case 2:
+				ob.Persist, ob.CtxEnded = "ctx", true
+			case 3:
+				ob.Persist = "error"
+			}
+		}
+		handedBefore, persistedBefore := c.ep.handed.Load(), c.ep.persisted.Load()
+		ok := c.ep.inner.OnCommit(ctx, h, v)
+		ob.Result = ok
+		ob.Handover = c.ep.handed.Load() > handedBefore
+		ob.Acked = c.ep.persisted.Load() == uint64(h) && persistedBefore != uint64(h)
+		ob.Finalized = c.ep.app.store.IsFinalized(h)
+		c.ep.commitObs = append(c.ep.commitObs, ob)
+		if !ok {
 			if c.ep.failedAt < 0 {
 				c.ep.errs = append(c.ep.errs, fmt.Sprintf("commitlistener: refused height %d (no build result in the proposal store)", uint64(h)))
 			}
@@ -715,10 +830,13 @@ var errNoTimeoutChannel = fmt.Errorf("the driver's timeout channel was not found
 
 // startEpoch boots a process instance on a copy of the crash image `image` ("" = empty disk) with
 // the chain at height `chain`, and waits until replay and the first ProcessStart are done.
-func startEpoch(cfg *Cfg, base, image string, chain, epochNo uint64, failAt int) (*epoch, error) {
+func startEpoch(cfg *Cfg, base, image string, chain, epochNo uint64, failAt int, opts ...func(*epoch)) (*epoch, error) {
 	ep := &epoch{cfg: cfg, base: base, chain: chain, boot: chain + 1, chainNow: chain, curInput: -1, failAt: failAt, failedAt: -1,
 		sentinelCh: make(chan struct{}, 1), done: make(chan error, 1),
 		propCh: make(chan *starknet.Proposal), prevCh: make(chan *starknet.Prevote), precCh: make(chan *starknet.Precommit)}
+	for _, o := range opts {
+		o(ep)
+	}
 	ep.dir = filepath.Join(base, "db")
 	if err := os.MkdirAll(ep.dir, 0o755); err != nil {
 		return nil, err
@@ -736,7 +854,9 @@ func startEpoch(cfg *Cfg, base, image string, chain, epochNo uint64, failAt int)
 		ep.inner = driver.NewCommitListener[V, H](log.NewNopZapLogger(), ep.app.store)
 	}
 	ep.real = tendermint.New[V, H, A](log.NewNopZapLogger(), addrOf(cfg.Me), ep.app, cfg, types.Height(chain+1))
+	hookMu.RLock()
 	st, err := walstore.NewTendermintWALStore[V, H, A](pathOnly{path: ep.dir})
+	hookMu.RUnlock()
 	if err != nil {
 		return nil, fmt.Errorf("open wal store: %w", err)
 	}
@@ -765,6 +885,9 @@ func startEpoch(cfg *Cfg, base, image string, chain, epochNo uint64, failAt int)
 		fetcher, extractor,
 		func(step types.Step, round types.Round) time.Duration {
 			ep.record(fmt.Sprintf("timer:%d:%d", step, round))
+			if ep.realTimers {
+				return time.Millisecond
+			}
 			return 24 * time.Hour
 		})
 	ep.timeoutCh = timeoutChan(&d)
@@ -779,9 +902,14 @@ func startEpoch(cfg *Cfg, base, image string, chain, epochNo uint64, failAt int)
 			for {
 				select {
 				case cb := <-ep.inner.Listen():
+					ep.handed.Add(1)
 					if ep.cancelOnBlock.Load() {
 						cancel() // taken but never acknowledged: the process is going down
 						return
+					}
+					if ep.persistErr.Load() {
+						cb.Persisted <- fmt.Errorf("injected: the block could not be stored")
+						continue
 					}
 					ep.persisted.Store(cb.Block.Number)
 					cb.Persisted <- nil
@@ -979,7 +1107,14 @@ func (ep *epoch) stop() { ep.stopVia(false) }
 func (ep *epoch) stopVia(closeListener bool) {
 	ep.boundary()
 	if closeListener {
-		close(ep.precCh)
+		switch ep.closeWhich {
+		case 1:
+			close(ep.prevCh)
+		case 2:
+			close(ep.propCh)
+		default:
+			close(ep.precCh)
+		}
 	} else if ep.cancel != nil {
 		ep.cancel()
 	}
